@@ -5,6 +5,7 @@ import (
 	"fmt"
 	"os"
 	"path/filepath"
+	"runtime/debug"
 	"sort"
 	"strconv"
 	"strings"
@@ -120,6 +121,9 @@ func main() {
 	func() {
 		defer func() {
 			if r := recover(); r != nil {
+				if os.Getenv("CDLINT_DEBUG_PANIC") != "" {
+					fmt.Fprintf(os.Stderr, "%s\n", debug.Stack())
+				}
 				rep.Fatalf("checker panic: %v", r)
 				if os.Getenv("CDLINT_DEBUG") != "" {
 					panic(r)
